@@ -390,21 +390,27 @@ def fAbsTrunc (m : Nat) (e : Int) : Nat × Bool :=
 def fNonFinite (x : Float) : Except String Int :=
   if x.isNaN then .error "ValueError" else .error "OverflowError"
 
+/-- `int()` of the exact value `± m·2^e` -/
+def truncT (neg : Bool) (m : Nat) (e : Int) : Int :=
+  let a : Int := (fAbsTrunc m e).1
+  if neg then -a else a
+
+/-- `math.ceil` of the exact value `± m·2^e` -/
+def ceilT (neg : Bool) (m : Nat) (e : Int) : Int :=
+  let (a, exact) := fAbsTrunc m e
+  if neg then -(a : Int) else if exact then (a : Int) else (a : Int) + 1
+
 /-- `int(x)` -/
 def fTrunc (x : Float) : Except String Int :=
   match fDecode x with
   | none => fNonFinite x
-  | some (neg, m, e) =>
-    let a : Int := (fAbsTrunc m e).1
-    .ok (if neg then -a else a)
+  | some (neg, m, e) => .ok (truncT neg m e)
 
 /-- `math.ceil(x)` -/
 def fCeil (x : Float) : Except String Int :=
   match fDecode x with
   | none => fNonFinite x
-  | some (neg, m, e) =>
-    let (a, exact) := fAbsTrunc m e
-    .ok (if neg then -(a : Int) else if exact then (a : Int) else (a : Int) + 1)
+  | some (neg, m, e) => .ok (ceilT neg m e)
 
 def stripZeros : Nat → Nat → Int → Nat × Int
   | 0, n, k => (n, k)
@@ -416,27 +422,70 @@ def fExact (neg : Bool) (n : Nat) (e : Int) : Float :=
   let v := (Float.ofNat r).scaleB k
   if neg then -v else v
 
-/-- C `fmod(x, y)`, `y ≠ 0`: exact, in integer arithmetic on the common exponent -/
+/-- C `fmod` on exact values `mx·2^ex`, `my·2^ey` (`my ≠ 0`): mantissa and exponent of the
+    remainder, in integer arithmetic on the common exponent -/
+def fmodT (mx : Nat) (ex : Int) (my : Nat) (ey : Int) : Nat × Int :=
+  let e := min ex ey
+  let X := mx <<< (ex - e).toNat
+  let Y := my <<< (ey - e).toNat
+  (X % Y, e)
+
+/-- C `fmod(x, y)`, `y ≠ 0`: exact; the sign of the dividend -/
 def cFmod (x y : Float) : Float :=
   match fDecode x, fDecode y with
   | some (nx, mx, ex), some (_, my, ey) =>
     if my == 0 then 0.0 / 0.0
-    else
-      let e := min ex ey
-      let X := mx <<< (ex - e).toNat
-      let Y := my <<< (ey - e).toNat
-      fExact nx (X % Y) e
+    else fExact nx (fmodT mx ex my ey).1 (fmodT mx ex my ey).2
   | some _, none => if y.isNaN then y else x
   | none, _ => 0.0 / 0.0
 
-/-- Python's `x % y` on floats (`float_rem`) -/
-def pyModF (x y : Float) : Except String Float :=
-  if y == 0.0 then .error "ZeroDivisionError"
+/-- what `float_rem` (Objects/floatobject.c) uses of its number type -/
+structure ModOps (α : Type) where
+  isZero : α → Bool          -- `v == 0.0`
+  ltZero : α → Bool          -- `v < 0.0`
+  add : α → α → α            -- `mod += wx`, the ONE inexact operation
+  cfmod : α → α → α          -- C `fmod` (exact)
+  zeroLike : α → α           -- `copysign(0.0, wx)`
+
+/-- Python's `x % y` (`float_rem`), written once for any number type:
+      mod = fmod(vx, wx); if mod: if (wx < 0) != (mod < 0): mod += wx
+      else: mod = copysign(0.0, wx) -/
+def pyModGen {α : Type} (o : ModOps α) (x y : α) : Except String α :=
+  if o.isZero y then .error "ZeroDivisionError"
   else
-    let r := cFmod x y
-    if r == 0.0 then .ok (if y < 0.0 then -0.0 else 0.0)
-    else if decide (y < 0.0) != decide (r < 0.0) then .ok (r + y)
+    let r := o.cfmod x y
+    if o.isZero r then .ok (o.zeroLike y)
+    else if o.ltZero y != o.ltZero r then .ok (o.add r y)
     else .ok r
+
+/-- binary64: `cFmod` above, Lean's `Float` comparison and (rounded) addition -/
+def floatModOps : ModOps Float where
+  isZero := fun v => v == 0.0
+  ltZero := fun v => decide (v < 0.0)
+  add := (· + ·)
+  cfmod := cFmod
+  zeroLike := fun y => if y < 0.0 then -0.0 else 0.0
+
+/-- Python's `x % y` on floats -/
+def pyModF (x y : Float) : Except String Float := pyModGen floatModOps x y
+
+/-! ## the exact instance of `float_rem`: an ordered field, the one addition followed by `rnd` -/
+
+section ExactMod
+variable {α : Type} [Add α] [Sub α] [Mul α] [Div α] [Neg α] [OfNat α 0] [OfNat α 1]
+  [IntCast α] [Floor α] [DecidableEq α] [LT α] [DecidableLT α]
+
+/-- C `fmod` on exact values: `a - m·trunc(a/m)` -/
+def cRemM (a m : α) : α := a - m * ((pyInt (a / m) : Int) : α)
+
+def exactModOps (rnd : α → α) : ModOps α where
+  isZero := fun v => decide (v = 0)
+  ltZero := fun v => decide (v < 0)
+  add := fun a b => rnd (a + b)
+  cfmod := cRemM
+  zeroLike := fun _ => 0
+
+end ExactMod
 
 def floatOps : NumOps Float where
   zero := 0.0
